@@ -313,6 +313,17 @@ func (st *State) applyContract(f *Frame, ins ssa.Instruction, c *Contract, calle
 	if c.Trusted {
 		st.res.Assumed[c.Pkg+"."+c.Name] = true
 	}
+	// `at <callee> assert ...` clauses of the function under proof: over its own locals, here
+	if top := st.frames[0]; f == top && top.contract != nil && len(top.contract.AtAsserts[name]) > 0 {
+		aenv := st.specEnv(f, nil, false)
+		for i, a := range top.contract.AtAsserts[name] {
+			st.oblige("pre", fmt.Sprintf("assert:at:%s@%s:%s", name, strings.TrimPrefix(ord, "call@"), clauseLabel(a, i)), st.evalBool(a.Expr, aenv, a), a.Src+"  [at the call of "+name+", "+st.pos(ins)+"]")
+		}
+		if top.contract.atUsed == nil {
+			top.contract.atUsed = map[string]bool{}
+		}
+		top.contract.atUsed[name] = true
+	}
 	env := &specEnv{st: st, vars: map[string]Value{}, heap: st.heap, old: st.heap, topOld: st.allocTop}
 	// parameter names
 	var names []string
@@ -1046,12 +1057,26 @@ func (st *State) appendInPlace(freshRes Value, r string, s, t Value, tl, nl stri
 	arr := st.elemsArr(st.heap, es)
 	as := ArrSort(BV(64), es)
 	base, off, ln := app("s_ref", s.Term), app("s_off", s.Term), app("s_len", s.Term)
-	inpl := st.define("app_inplace", app("bvsle", nl, app("s_cap", s.Term)), SBool)
+	fits := app("bvsle", nl, app("s_cap", s.Term))
+	// The two outcomes are two paths (the state is forked at the append and the copy re-executes
+	// it taking the other branch): each path then has plain store chains, which keeps quantified
+	// invariants over appended slices cheap for the solvers.
+	inplace := true
+	switch st.appendMode {
+	case "fresh":
+		inplace = false
+	default:
+		if fits != "true" && fits != "false" {
+			other := st.clone()
+			other.appendMode = "fresh"
+			other.top().idx--
+			st.pendingForks = append(st.pendingForks, other)
+		} else if fits == "false" {
+			inplace = false
+		}
+	}
+	st.appendMode = ""
 	oldArr := app("select", arr, base)
-	start := st.define("app_at", app("bvadd", off, ln), BV(64))
-	na := st.fresh("app_arr", as)
-	st.assume(fmt.Sprintf("(forall ((i (_ BitVec 64))) (! (=> (and (bvsle (_ bv0 64) i) (bvslt i %s)) (= (select %s i) (select %s (bvadd %s i)))) :pattern ((select %s i))))",
-		ln, na, oldArr, off, na))
 	var tb string
 	if es == BV(8) {
 		tb = st.bytesOf(st.heap, t)
@@ -1064,53 +1089,77 @@ func (st *State) appendInPlace(freshRes Value, r string, s, t Value, tl, nl stri
 			}
 		}
 	}
-	var ia string
-	if cnt >= 0 {
-		// a known small number of elements: exact stores
-		tArr := app("select", arr, app("s_ref", t.Term))
-		ia = oldArr
-		for k := int64(0); k < cnt; k++ {
-			v := app("select", tArr, app("bvadd", app("s_off", t.Term), bvInt(k, 64)))
-			st.assume(eq(app("select", na, app("bvadd", ln, bvInt(k, 64))), v))
-			ia = app("store", ia, app("bvadd", start, bvInt(k, 64)), v)
-		}
-		ia = st.define("app_in", ia, as)
+	var newArr, at, resOff string // the array the result lives in, where the new elements start, the result's offset
+	var res Value
+	if inplace {
+		st.assume(fits)
+		at = st.define("app_at", app("bvadd", off, ln), BV(64))
+		resOff = off
+		res = Value{T: freshRes.T, S: SSlice, Term: app("mk_slice", base, off, nl, app("s_cap", s.Term))}
 	} else {
-		ia = st.fresh("app_in", as)
-		end := app("bvadd", start, tl)
-		st.assume(fmt.Sprintf("(forall ((i (_ BitVec 64))) (! (=> (or (bvslt i %s) (bvsge i %s)) (= (select %s i) (select %s i))) :pattern ((select %s i))))",
-			start, end, ia, oldArr, ia))
+		st.assume(not(fits))
+		at = ln
+		resOff = bvInt(0, 64)
+		res = freshRes
+	}
+	if cnt >= 0 && inplace {
+		// a known small number of elements written in place: exact stores
+		tArr := app("select", arr, app("s_ref", t.Term))
+		ia := oldArr
+		for k := int64(0); k < cnt; k++ {
+			ia = app("store", ia, app("bvadd", at, bvInt(k, 64)), app("select", tArr, app("bvadd", app("s_off", t.Term), bvInt(k, 64))))
+		}
+		newArr = st.define("app_in", ia, as)
+	} else {
+		if inplace {
+			newArr = st.fresh("app_in", as)
+			// everything outside the appended range stays
+			st.assume(fmt.Sprintf("(forall ((i (_ BitVec 64))) (! (=> (or (bvslt i %s) (bvsge i %s)) (= (select %s i) (select %s i))) :pattern ((select %s i))))",
+				at, app("bvadd", at, tl), newArr, oldArr, newArr))
+		} else {
+			newArr = st.fresh("app_arr", as)
+			// the old elements are copied to the front of the new array
+			st.assume(fmt.Sprintf("(forall ((i (_ BitVec 64))) (! (=> (and (bvsle (_ bv0 64) i) (bvslt i %s)) (= (select %s i) (select %s (bvadd %s i)))) :pattern ((select %s i))))",
+				ln, newArr, oldArr, off, newArr))
+		}
 		if t.S != SStr {
 			tArr := app("select", arr, app("s_ref", t.Term))
-			// (quantifier-free instances for the first two appended elements, if there are that many)
-			for k := int64(0); k < 2; k++ {
-				has := app("bvslt", bvInt(k, 64), tl)
-				v := app("select", tArr, app("bvadd", app("s_off", t.Term), bvInt(k, 64)))
-				st.assume(imp(has, and(eq(app("select", na, app("bvadd", ln, bvInt(k, 64))), v), eq(app("select", ia, app("bvadd", start, bvInt(k, 64))), v))))
-			}
-			for _, p := range [][2]string{{na, ln}, {ia, start}} {
+			if cnt >= 0 {
+				for k := int64(0); k < cnt; k++ {
+					st.assume(eq(app("select", newArr, app("bvadd", at, bvInt(k, 64))), app("select", tArr, app("bvadd", app("s_off", t.Term), bvInt(k, 64)))))
+				}
+			} else {
+				// (quantifier-free instances for the first two appended elements, if there are that many)
+				for k := int64(0); k < 2; k++ {
+					v := app("select", tArr, app("bvadd", app("s_off", t.Term), bvInt(k, 64)))
+					st.assume(imp(app("bvslt", bvInt(k, 64), tl), eq(app("select", newArr, app("bvadd", at, bvInt(k, 64))), v)))
+				}
 				// (stated over the absolute index j, so that any read of the new array triggers it)
 				st.assume(fmt.Sprintf("(forall ((j (_ BitVec 64))) (! (=> (and (bvsle %s j) (bvslt j (bvadd %s %s))) (= (select %s j) (select %s (bvadd %s (bvsub j %s))))) :pattern ((select %s j))))",
-					p[1], p[1], tl, p[0], tArr, app("s_off", t.Term), p[1], p[0]))
+					at, at, tl, newArr, tArr, app("s_off", t.Term), at, newArr))
 			}
 		}
 	}
-	res := Value{T: freshRes.T, S: SSlice, Term: st.define("app_res", ite(inpl, app("mk_slice", base, off, nl, app("s_cap", s.Term)), freshRes.Term), SSlice)}
 	if es == BV(8) {
-		// the byte abstraction: the result holds the old bytes followed by the new ones; the bytes of s itself stay
-		resArr, resOff := ite(inpl, ia, na), ite(inpl, off, bvInt(0, 64))
+		// the byte abstraction: the result holds the old bytes followed by the new ones
 		ob := app("bseq", oldArr, off, ln)
-		st.assume(eq(app("bseq", resArr, resOff, nl), app("cat", ob, tb)))
-		st.assume(eq(app("bseq", ia, off, ln), ob))
+		st.assume(eq(app("bseq", newArr, resOff, nl), app("cat", ob, tb)))
+		st.assume(eq(app("bseq", newArr, resOff, ln), ob))
 		if ln == bvInt(1, 64) {
 			// appending to a one-byte slice (the table prefix): its bytes are that one byte
 			st.eng.pre.Fun("b1", "((_ BitVec 8)) Bytes")
 			st.assume(eq(ob, app("b1", app("select", oldArr, off))))
 		}
-		st.assume(eq(app("bseq", resArr, app("bvadd", resOff, ln), tl), tb))
-		st.assume(bseqFrame(ia, oldArr, start, app("bvadd", start, tl)))
+		st.assume(eq(app("bseq", newArr, app("bvadd", resOff, ln), tl), tb))
+		if inplace {
+			st.assume(bseqFrame(newArr, oldArr, at, app("bvadd", at, tl)))
+		}
 	}
-	st.heapSet(elemsName(es), ArrSort(SRef, as), app("store", app("store", arr, r, na), base, ite(inpl, ia, oldArr)))
+	if inplace {
+		st.heapSet(elemsName(es), ArrSort(SRef, as), app("store", arr, base, newArr))
+	} else {
+		st.heapSet(elemsName(es), ArrSort(SRef, as), app("store", arr, r, newArr))
+	}
 	return res
 }
 
